@@ -277,7 +277,7 @@ def _serialise(sem_name, init_idx, hist, h, out):
             want = [bridge.expand(c) for c in m.get_claims()]
             files = pyrun.serialize_real(m, opt)
         except Exception as ex:  # noqa: BLE001
-            out['viol'].append(({'kind': 'serialize_raises', 'semantics': sem_name, 'exc': type(ex).__name__}, list(hist),
+            out['viol'].append(({'kind': 'serialize_raises', 'semantics': sem_name, 'exc': common.exc_family(ex)}, list(hist),
                                 f'{sem_name}: serialising the module of trace {list(hist)} (optimize={opt}) raised {type(ex).__name__}: {str(ex)[:150]}'))
             return
         g, c, p = pyrun.triple(files)
